@@ -84,7 +84,7 @@ def _norm(items):
                     if cur:
                         out.append(cur)
                         cur = ''
-                    out.append((ord(c) - 48, 1))
+                    out.append((ord(c) - 48, 1, 'c'))
                 else:
                     cur += c
             if cur:
@@ -96,7 +96,7 @@ def _norm(items):
 
 def same(a, b):
     """decoded strings equal: same literals, same widths, equal (possibly symbolic) values"""
-    a, b = _norm(a), _norm(b)
+    a, b = _join(_norm(a)), _join(_norm(b))
     if len(a) != len(b):
         return False
     for x, y in zip(a, b):
@@ -234,3 +234,63 @@ def expand(items):
         if len(res) > 64:
             return None
     return res
+
+
+# ---- f-string / format() hook ---------------------------------------------------------------------
+_HOOKED = [False]
+
+
+def install_format_hook():
+    """Make CrossHair's symbolic int render `format(n, '02d')` / f'{n:04d}' / '{:02d}'.format(n) as a placeholder
+    (CrossHair otherwise realises n, i.e. enumerates its values one path each).  For 0 <= n < 10**w the real
+    rendering is exactly w digits denoting n, which is what the placeholder (n, w) stands for; any other case
+    falls through to the real formatting."""
+    if _HOOKED[0]:
+        return
+    import crosshair.core_and_libs  # noqa: F401  (registers CrossHair's own patches first)
+    from crosshair import core
+    from crosshair.libimpl import builtinslib
+    from crosshair.tracers import NoTracing
+    orig = core._PATCH_REGISTRATIONS[format]
+
+    def fmt(obj, spec=''):
+        with NoTracing():
+            hit = isinstance(spec, str) and len(spec) == 3 and spec[0] == '0' and spec[1] in '123456789' and spec[2] == 'd' \
+                and isinstance(obj, builtinslib.SymbolicInt)
+        if hit:
+            w = int(spec[1])
+            if 0 <= obj < 10 ** w:
+                return ph(obj, w)
+        return orig(obj, spec)
+    core._PATCH_REGISTRATIONS[format] = fmt
+    _HOOKED[0] = True
+
+
+def ymd(s):
+    """'YYYY-MM-DD' -> (y, m, d) as recorded values / ints, or None if the shape differs"""
+    d = _join(_norm(decode(s)))
+    if len(d) == 5 and d[1] == '-' and d[3] == '-' and not isinstance(d[0], str) and not isinstance(d[2], str) \
+            and not isinstance(d[4], str) and (d[0][1], d[2][1], d[4][1]) == (4, 2, 2):
+        return d[0][0], d[2][0], d[4][0]
+    return None
+
+
+def _join(items):
+    """merge adjacent literal digits (real digits the code printed, tagged 'c' by _norm) into one number item"""
+    out = []
+    for it in items:
+        if (not isinstance(it, str)) and len(it) == 3 and out and (not isinstance(out[-1], str)) and len(out[-1]) == 3:
+            out[-1] = (out[-1][0] * 10 + it[0], out[-1][1] + 1, 'c')
+        elif isinstance(it, str) and out and isinstance(out[-1], str):
+            out[-1] = out[-1] + it
+        else:
+            out.append(it)
+    return [(i[0], i[1]) if not isinstance(i, str) else i for i in out]
+
+
+def hms(s):
+    """'HH:MM:SS' -> (h, m, s) or None"""
+    d = _join(_norm(decode(s)))
+    if len(d) == 5 and d[1] == ':' and d[3] == ':' and all(not isinstance(d[i], str) and d[i][1] == 2 for i in (0, 2, 4)):
+        return d[0][0], d[2][0], d[4][0]
+    return None
